@@ -246,6 +246,16 @@ impl Transaction {
         Ok(())
     }
 
+    /// The Proposition this transaction has already staged for a semantic
+    /// tuple, if any. A statement that ensures the same tuple twice must bind
+    /// the second clause to the first one's row instead of minting a rival.
+    pub fn staged_proposition(&self, tuple_key: &str) -> Option<ElementId> {
+        self.staged.iter().find_map(|(id, staged)| match &staged.row {
+            Element::Proposition(row) if row.tuple_key == tuple_key => Some(*id),
+            _ => None,
+        })
+    }
+
     /// Stages a newly created element's final row.
     pub fn stage_new(&mut self, id: ElementId, row: Element, op: &'static str) {
         self.staged.insert(
